@@ -443,6 +443,42 @@ func (w *World) Apply(op string) (string, error) {
 			return "refused:" + short(err), nil
 		}
 		return "ok", nil
+	case "mkch":
+		k := cesium.ChannelKey(atoi(f[1]))
+		for _, d := range ChannelDefs() {
+			if d.Key == k {
+				if err := w.DB.CreateChannel(Ctx, d); err != nil {
+					w.Poisoned = "create channel refused: " + err.Error()
+					return "refused:" + short(err), nil
+				}
+			}
+		}
+		w.Cfg.Channels = append(append([]cesium.ChannelKey{}, w.Cfg.Channels...), k)
+		w.Ref[k] = map[int]bool{}
+		return "ok", nil
+	case "rmch":
+		k := cesium.ChannelKey(atoi(f[1]))
+		if err := w.DB.DeleteChannel(k); err != nil {
+			w.Poisoned = "delete channel refused: " + err.Error()
+			return "refused:" + short(err), nil
+		}
+		var rest []cesium.ChannelKey
+		for _, c := range w.Cfg.Channels {
+			if c != k {
+				rest = append(rest, c)
+			}
+		}
+		w.Cfg.Channels = rest
+		delete(w.Ref, k)
+		delete(w.Doms, k)
+		return "ok", nil
+	case "rnch":
+		k := cesium.ChannelKey(atoi(f[1]))
+		if err := w.DB.RenameChannel(Ctx, k, "renamed"+f[1]); err != nil {
+			w.Poisoned = "rename channel refused: " + err.Error()
+			return "refused:" + short(err), nil
+		}
+		return "ok", nil
 	case "reopen":
 		if err := w.DB.Close(); err != nil {
 			return "", vk.Violationf("db-close-error", "DB.Close failed: %v", err)
